@@ -36,7 +36,7 @@ m = {
     "hooks": {
         "guard": "verif",
         "enable": "no source hooks in /repo: harnesses (//go:build verif) are injected in-package through go/packages Overlay and go test -overlay",
-        "baseline_off_cmd": "for m in app core extras; do (cd /repo/$m && go test -vet=off -count=1 -timeout 25m ./...); done",
+        "baseline_off_cmd": "for m in $(cat /w/out/gomods.txt); do MF=$(cd /repo/$m && . /w/out/goenv.sh && gomodflag); (cd /repo/$m && go test $MF -json -vet=off -count=1 -timeout 25m ./...); done",
         "source_commits": [],
         "add_only": True,
     },
